@@ -841,10 +841,14 @@ func runFrame(fr *frame) {
 		if fr.i.mode&DisableRecover != 0 {
 			panic(r)
 		}
-		if os.Getenv("SYMGO_STACK") != "" {
-			if _, ok := r.(runtime.Error); ok {
+		if re, ok := r.(runtime.Error); ok {
+			// target run-time errors are raised explicitly (runtimePanic); a run-time
+			// error of the host is the interpreter itself failing on something it
+			// does not model: the path is inconclusive, never a finding
+			if os.Getenv("SYMGO_STACK") != "" {
 				fmt.Fprintf(os.Stderr, "host stack for %v:\n%s\n", r, debug.Stack())
 			}
+			panic(unsupported{"host run-time error inside the interpreter (engine limitation) at " + fr.i.ps.siteOf(fr) + ": " + re.Error()})
 		}
 		fr.i.ps.notePanicSite(fr)
 		fr.panicking = true
